@@ -564,9 +564,14 @@ def c10(H):
         new = g["requested"]
         if new == g["prev_max_workers"]:
             continue          # the statement is about a *different* max_workers (an equal one is a no-op)
-        exits = sum(1 for st_, kind, data in H.events if kind == "exit" and g["start"] <= st_ <= g["end"])
-        if exits != max(0, len(g["pids_before"]) - new):
-            continue          # a worker left on its own during the call (its idle timer had fired just before)
+        fired = {}
+        for st_, kind, data in H.events:
+            if kind == "fire" and data.get("pid") != 1000:
+                fired.setdefault(data["pid"], st_)
+        own = [data["pid"] for st_, kind, data in H.events if kind == "exit" and g["start"] <= st_ <= g["end"]
+               and fired.get(data["pid"], 10 ** 9) <= st_]
+        if own:
+            continue          # a worker whose idle timer had fired (possibly just before the call) left during the call
         if len(g["pids_after"]) != new:
             v.append({"kind": "wrong_number_of_live_workers", "detail": f"resize {g['prev_max_workers']}->{new} returned with live "
                       f"workers {g['pids_after']} (no worker timed out or died meanwhile)", "where": "count"})
